@@ -9,7 +9,7 @@ conf = {}
 for l in open(os.path.join(S, "_confirm.jsonl")):
     d = json.loads(l); conf[d["m"]] = d
 mat = {}
-for f in [x for x in (os.path.join(S, "_matrix_final.jsonl"), os.path.join(S, "_matrix_r3.jsonl"), os.path.join(S, "_matrix_r4.jsonl"), os.path.join(S, "_matrix_r5.jsonl"), os.path.join(S, "_matrix_r6.jsonl"), os.path.join(S, "_matrix_r7.jsonl"), os.path.join(S, "_matrix_r7b.jsonl"), os.path.join(S, "_matrix_r8.jsonl"), os.path.join(S, "_matrix_r8b.jsonl")) if os.path.exists(x)]:
+for f in [x for x in (os.path.join(S, "_matrix_final.jsonl"), os.path.join(S, "_matrix_r3.jsonl"), os.path.join(S, "_matrix_r4.jsonl"), os.path.join(S, "_matrix_r5.jsonl"), os.path.join(S, "_matrix_r6.jsonl"), os.path.join(S, "_matrix_r7.jsonl"), os.path.join(S, "_matrix_r7b.jsonl"), os.path.join(S, "_matrix_r8.jsonl"), os.path.join(S, "_matrix_r8b.jsonl"), os.path.join(S, "_matrix_r9.jsonl"), os.path.join(S, "_matrix_r9b.jsonl")) if os.path.exists(x)]:
     for l in open(f):
         d = json.loads(l)
         if "check" in d:
@@ -33,7 +33,7 @@ for pid in ids:
             title = [l.strip("# \n") for l in open(os.path.join(src, "notes.md")) if l.strip()][0]
         else:
             title = [l.strip("/!# \n") for l in open(os.path.join(src, "demonstration.rs")) if l.strip()][0]
-        title = re.sub(r"^(Mutant )?C\d\d\s*/\s*(mutant )?[A-O]\s*[—:-]*\s*", "", title, flags=re.I)
+        title = re.sub(r"^(Mutant )?C\d\d\s*/\s*(mutant )?[A-P]\s*[—:-]*\s*", "", title, flags=re.I)
         files = sorted({l[6:].strip() for l in open(os.path.join(src, "patch.diff")) if l.startswith("+++ b/")})
         c = conf.get(m, {})
         det = {}
@@ -50,7 +50,7 @@ for pid in ids:
         meta = {
             "property": pid, "label": x, "summary": title, "files_touched": files,
             "origin": "fresh sub-agent, round %d; it saw only the text of property %s and a scratch worktree of /repo "
-                      "(never /verif)" % (1 if x in "AB" else 2 if x in "CD" else 3 if x in "EF" else 4 if x in "GH" else 5 if x in "IJ" else 6 if x in "KL" else 7 if x in "MN" else 8, pid),
+                      "(never /verif)" % (1 if x in "AB" else 2 if x in "CD" else 3 if x in "EF" else 4 if x in "GH" else 5 if x in "IJ" else 6 if x in "KL" else 7 if x in "MN" else 8 if x == "O" else 9, pid),
             "confirmed_by_me": {
                 "how": "tools/confirm_seeded.sh in a scratch git worktree outside /repo and /verif (removed afterwards)",
                 "patch_applies_to_repo_head": c.get("applies"),
@@ -89,14 +89,14 @@ NOTDET += ("**C13/G** (the bookkeeping resets of `Common::clear` moved behind th
            "panic is caught. Since round 7 every builder `clear` of the harness is made to unwind through a last zero-sized\n"
            "component whose destructor panics, and the change is detected.\n")
 text = ("<!-- seeded:begin -->\n"
-        "%d seeded changes are kept under `/verif/seeded/<property>/<A-O>/` (`patch.diff`, `demonstration.rs`, `notes.md`,\n"
-        "`meta.json`). A and B come from a first round of fresh sub-agents, C/D, E/F, G/H, I/J, K/L and M/N from six further rounds and O from an eighth (one change per property) that\n"
+        "%d seeded changes are kept under `/verif/seeded/<property>/<A-P>/` (`patch.diff`, `demonstration.rs`, `notes.md`,\n"
+        "`meta.json`). A and B come from a first round of fresh sub-agents, C/D, E/F, G/H, I/J, K/L and M/N from six further rounds and O and P from an eighth and a ninth (one change per property each) that\n"
         "were told which places the earlier rounds had used; each agent saw only the property's text and a scratch worktree of\n"
         "`/repo`, never `/verif`.\n"
         "I confirmed every one myself in a scratch worktree (`tools/confirm_seeded.sh`): the patch applies to `/repo`'s HEAD,\n"
         "the whole baseline suite still passes with it, the demonstration fails with it and passes without it. The table is\n"
         "generated from `tools/matrix.sh` (each change applied to `/repo`'s working tree, the listed checks run, the tree\n"
-        "restored; for rounds 7 and 8 `tools/matrix_lanes.sh`: four such runs side by side, each in a scratch copy of `/verif` against its own worktree of\n"
+        "restored; for rounds 7 to 9 `tools/matrix_lanes.sh`: four such runs side by side, each in a scratch copy of `/verif` against its own worktree of\n"
         "`/repo`, development mode, no evidence written): **%d of %d are detected by their own property's check** (quick tier, default seed).\n\n" % (len(rows), own_ok, len(rows))
         + "\n".join(tbl) + "\n\n" + NOTDET +
         "<!-- seeded:end -->")
